@@ -1,0 +1,197 @@
+//go:build verif
+
+package pipeline
+
+import (
+	"sync"
+	"sync/atomic"
+)
+
+// Verification hooks of the two event pools (event.go), compiled only with -tags verif.
+//
+// Every atomic operation of get / back / wakeupWaiters is one labelled step. To make the order of
+// the recorded labels equal to the order in which the atomic operations took effect, an operation
+// and its label are bracketed:
+//
+//	verifPoolAtom()                      // takes the recorder's mutex
+//	x := p.counter.Inc()                 // the operation
+//	verifPoolAtomTrace(kind, p, ...)     // records the label, releases the mutex
+//
+// verifPoolTrace records a label on its own (mutex Lock: after the operation; Unlock / Wait:
+// before it). verifPoolGate is a scheduling point where the harness may hold the goroutine.
+// The thread identity carried by the labels is the `size` argument of get (back: Event.Size).
+
+// Trace label kinds (low-memory pool).
+const (
+	vpLmInc       = 40 // a=thread b=result of inUseEvents.Inc()
+	vpLmAdmit     = 41 // a=thread            (fast path taken)
+	vpLmDec       = 42 // a=thread            (overshoot undone)
+	vpLmWInc      = 43 // a=thread            slowWaiters.Inc()
+	vpLmLock      = 44 // a=thread            getCond.L.Lock() returned
+	vpLmCheck     = 45 // a=thread b=eventsAvailable() (0/1)
+	vpLmRegister  = 46 // a=thread            about to call getCond.Wait()
+	vpLmWake      = 47 // a=thread            getCond.Wait() returned
+	vpLmUnlock    = 48 // a=thread            about to call getCond.L.Unlock()
+	vpLmWDec      = 49 // a=thread            slowWaiters.Dec()
+	vpLmBackDec   = 50 // a=thread (event.Size)  inUseEvents.Dec() in back
+	vpLmBackBcast = 51 // a=thread            getCond.Broadcast() in back
+	vpLmTickW     = 52 // a=waiters           heartbeat loaded slowWaiters
+	vpLmTickA     = 53 // a=eventsAvailable   heartbeat loaded availability
+	vpLmTickFire  = 54 //                     heartbeat broadcast
+	vpLmTickEnd   = 55 //                     heartbeat iteration finished
+)
+
+// Trace label kinds (standard pool).
+const (
+	vpStdClaim     = 60 // a=thread b=slot     getCounter.Inc()
+	vpStdCas       = 61 // a=thread b=slot c=ok   free1[x].CAS(true,false)
+	vpStdWInc      = 62 // a=thread
+	vpStdLock      = 63 // a=thread
+	vpStdRegister  = 64 // a=thread
+	vpStdWake      = 65 // a=thread
+	vpStdUnlock    = 66 // a=thread
+	vpStdWDec      = 67 // a=thread
+	vpStdTake      = 68 // a=thread b=slot c=event id (-1: nil)   events[x] read and cleared
+	vpStdFree2     = 69 // a=thread b=slot     free2[x].Store(false)
+	vpStdInUseInc  = 70 // a=thread
+	vpStdBackClaim = 71 // a=event id b=slot   backCounter.Inc()
+	vpStdBackCas   = 72 // a=event id b=slot c=ok   free2[x].CAS(false,true)
+	vpStdBackPut   = 73 // a=event id b=slot   events[x] = event
+	vpStdBackFree1 = 74 // a=event id b=slot   free1[x].Store(true)
+	vpStdBackDec   = 75 // a=event id          inUseEvents.Dec()
+	vpStdBackBcast = 76 // a=event id          getCond.Broadcast()
+	vpStdTickW     = 77
+	vpStdTickA     = 78
+	vpStdTickFire  = 79
+	vpStdTickEnd   = 80
+)
+
+// Gate points (a = thread).
+const (
+	vgLmBeforeWait  = 20 // low-memory pool: between eventsAvailable()==false and Cond.Wait
+	vgStdBeforeWait = 21 // standard pool: between the last failed CAS and Cond.Wait
+	vgLmAfterInc    = 22 // low-memory pool: between inUseEvents.Inc() and the capacity test
+	vgStdAfterCas   = 23 // standard pool: between winning free1[x] and reading events[x]
+)
+
+// Exported names for the harness.
+const (
+	VpLmInc         = vpLmInc
+	VpLmAdmit       = vpLmAdmit
+	VpLmDec         = vpLmDec
+	VpLmWInc        = vpLmWInc
+	VpLmLock        = vpLmLock
+	VpLmCheck       = vpLmCheck
+	VpLmRegister    = vpLmRegister
+	VpLmWake        = vpLmWake
+	VpLmUnlock      = vpLmUnlock
+	VpLmWDec        = vpLmWDec
+	VpLmBackDec     = vpLmBackDec
+	VpLmBackBcast   = vpLmBackBcast
+	VpLmTickW       = vpLmTickW
+	VpLmTickA       = vpLmTickA
+	VpLmTickFire    = vpLmTickFire
+	VpLmTickEnd     = vpLmTickEnd
+	VpStdClaim      = vpStdClaim
+	VpStdCas        = vpStdCas
+	VpStdWInc       = vpStdWInc
+	VpStdLock       = vpStdLock
+	VpStdRegister   = vpStdRegister
+	VpStdWake       = vpStdWake
+	VpStdUnlock     = vpStdUnlock
+	VpStdWDec       = vpStdWDec
+	VpStdTake       = vpStdTake
+	VpStdFree2      = vpStdFree2
+	VpStdInUseInc   = vpStdInUseInc
+	VpStdBackClaim  = vpStdBackClaim
+	VpStdBackCas    = vpStdBackCas
+	VpStdBackPut    = vpStdBackPut
+	VpStdBackFree1  = vpStdBackFree1
+	VpStdBackDec    = vpStdBackDec
+	VpStdBackBcast  = vpStdBackBcast
+	VpStdTickW      = vpStdTickW
+	VpStdTickA      = vpStdTickA
+	VpStdTickFire   = vpStdTickFire
+	VpStdTickEnd    = vpStdTickEnd
+	VgLmBeforeWait  = vgLmBeforeWait
+	VgStdBeforeWait = vgStdBeforeWait
+	VgLmAfterInc    = vgLmAfterInc
+	VgStdAfterCas   = vgStdAfterCas
+)
+
+type (
+	// VerifPoolTraceFunc is called with the recorder's mutex held.
+	VerifPoolTraceFunc func(kind int, obj any, a, b, c int64)
+	VerifPoolGateFunc  func(point int, obj any, a int64)
+)
+
+var (
+	verifPoolMu      sync.Mutex
+	verifPoolTraceFn atomic.Pointer[VerifPoolTraceFunc]
+	verifPoolGateFn  atomic.Pointer[VerifPoolGateFunc]
+)
+
+// SetVerifPoolHooks installs (or, with nil, removes) the callbacks of the pool hooks. They are
+// independent of SetVerifHooks.
+func SetVerifPoolHooks(t VerifPoolTraceFunc, g VerifPoolGateFunc) {
+	if t == nil {
+		verifPoolTraceFn.Store(nil)
+	} else {
+		verifPoolTraceFn.Store(&t)
+	}
+	if g == nil {
+		verifPoolGateFn.Store(nil)
+	} else {
+		verifPoolGateFn.Store(&g)
+	}
+}
+
+// verifPoolAtom begins an (operation, label) pair.
+func verifPoolAtom() { verifPoolMu.Lock() }
+
+// verifPoolAtomTrace records the label of the operation and ends the pair.
+func verifPoolAtomTrace(kind int, obj any, a, b, c int64) {
+	if f := verifPoolTraceFn.Load(); f != nil {
+		(*f)(kind, obj, a, b, c)
+	}
+	verifPoolMu.Unlock()
+}
+
+// verifPoolAtomTraceIf is verifPoolAtomTrace when cond holds and nothing otherwise (for a pair
+// whose label was already recorded on another branch).
+func verifPoolAtomTraceIf(cond bool, kind int, obj any, a, b, c int64) {
+	if cond {
+		verifPoolAtomTrace(kind, obj, a, b, c)
+	}
+}
+
+// verifPoolTrace records a label that is not paired with an atomic operation.
+func verifPoolTrace(kind int, obj any, a, b, c int64) {
+	verifPoolMu.Lock()
+	if f := verifPoolTraceFn.Load(); f != nil {
+		(*f)(kind, obj, a, b, c)
+	}
+	verifPoolMu.Unlock()
+}
+
+func verifPoolGate(point int, obj any, a int64) {
+	if f := verifPoolGateFn.Load(); f != nil {
+		(*f)(point, obj, a)
+	}
+}
+
+// verifEventID identifies an event object of a pool in the labels: the harness numbers the
+// objects through SeqID (which the pools never touch).
+func verifEventID(e *Event) int64 {
+	if e == nil {
+		return -1
+	}
+	return int64(e.SeqID)
+}
+
+func verifEventSize(e *Event) int64 {
+	if e == nil {
+		return -1
+	}
+	return int64(e.Size)
+}
